@@ -248,6 +248,12 @@ def public_case(nap, ts, ep, ep2=None, res=None):
         c = _make(nap, name, t, d, time_support=epo)
         if _ticks(c.t) != exp_t or (d is not None and not np.array_equal(c.values, d[exp_i])):
             return {"key": key(name + "(time_support=)", "samples"), "what": "constructor with time_support differs from construct-then-restrict", "input": inp}
+        # ... whatever accepted form the timestamps come in: another object's TsIndex (seed C03-5), a plain list, the .t array of an object
+        for form, tf in (("TsIndex", o.index), ("list", [float(x) for x in t]), ("t_of_object", o.t)):
+            cf = _make(nap, name, tf, d, time_support=epo)
+            if _ticks(cf.t) != exp_t or (d is not None and not np.array_equal(cf.values, d[exp_i])) or _sup(cf) != (list(ep) if n else []):
+                return {"key": key(name + "(time_support=)", "samples", t_form=form), "what": "constructor given t as %s with time_support differs from construct-then-restrict" % form,
+                        "input": inp, "impl": _ticks(cf.t), "expected": exp_t}
         for units, f in (("ms", 1e3), ("us", 1e6)):
             tu = np.asarray(ts, dtype=np.float64) / (1e9 / f)
             cu = _make(nap, name, tu, d, time_units=units, time_support=epo)
